@@ -28,6 +28,7 @@ type Exec struct {
 	usedContracts map[string]*Contract
 	assignedGlobals []string
 	havocAllSeen bool
+	atHits       map[*AtSpec]bool
 }
 
 type closureVal struct {
@@ -63,7 +64,7 @@ type Frame struct {
 }
 
 func newExec(eng *Engine, u *Unit) *Exec {
-	x := &Exec{eng: eng, u: u, heapDeclared: map[string]bool{}, globals: map[*types.Var]Val{}, needPrelude: map[string]bool{}, callCount: map[string]int{}, closures: map[string]*closureVal{}, emptyArr: map[string]string{}}
+	x := &Exec{eng: eng, u: u, heapDeclared: map[string]bool{}, globals: map[*types.Var]Val{}, needPrelude: map[string]bool{}, callCount: map[string]int{}, closures: map[string]*closureVal{}, emptyArr: map[string]string{}, atHits: map[*AtSpec]bool{}}
 	u.decls = append(u.decls, "(declare-const next!0 Int)")
 	u.fact("(> next!0 0)")
 	x.next0 = "next!0"
@@ -469,20 +470,29 @@ func (x *Exec) mapHas(st *State, m Val, k Val) string {
 	return fmt.Sprintf("(select (select %s %s) %s)", x.getHeap(st, dom), m.T, k.T)
 }
 
-// nsentKey: the ghost send counter of channels with the given element sort.
-func (x *Exec) nsentKey(elemSort string) string {
-	k := "chan.nsent." + sortId(elemSort)
-	x.u.regHeap(k, "(Array Int Int)")
-	return k
+// chanKeys: ghost send counter and last-sent value of the channels carrying elem, one pair of
+// heap arrays per Go element type (channels of different element types never alias).
+func (x *Exec) chanKeys(elem types.Type) (nsent, last, es string) {
+	es = "Int"
+	id := "unknown"
+	if elem != nil {
+		es = x.u.sortOf(elem)
+		id = sanitize(types.TypeString(elem, func(p *types.Package) string { return p.Name() }))
+	}
+	nsent = "chan.nsent." + id
+	last = "chan.last." + id
+	x.u.regHeap(nsent, "(Array Int Int)")
+	x.u.regHeap(last, "(Array Int "+es+")")
+	return
 }
 
-func (x *Exec) chanElemSort(t types.Type) string {
+func chanElem(t types.Type) types.Type {
 	if t != nil {
 		if ct, ok := t.Underlying().(*types.Chan); ok {
-			return x.u.sortOf(ct.Elem())
+			return ct.Elem()
 		}
 	}
-	return "Int"
+	return nil
 }
 
 // mapcardFn declares the cardinality function of key sets of sort ks with its update axioms.
